@@ -765,6 +765,63 @@ def replay(w):
             if not np.array_equal(util.read_signal(p2), sig):
                 return {'reproduced': True, 'detail': 'npy mismatch'}
             return {'reproduced': False, 'detail': 'numpy readers fine'}
+        if k in ('dispatch', 'hdf5'):
+            import wave
+            stored = (rng.randn(40) * 1000).astype(np.int16)
+            files = {}
+            np.save(os.path.join(work, 'a.npy'), stored)
+            files['npy'] = os.path.join(work, 'a.npy')
+            np.savez(os.path.join(work, 'a.npz'), stored)
+            files['npz'] = os.path.join(work, 'a.npz')
+            wv = wave.open(os.path.join(work, 'a.wav'), 'wb')
+            wv.setnchannels(1); wv.setsampwidth(2); wv.setframerate(8000); wv.writeframes(stored.astype('<i2').tobytes()); wv.close()
+            files['wav'] = os.path.join(work, 'a.wav')
+            try:
+                import torch
+                torch.save(torch.tensor(stored), os.path.join(work, 'a.pt'))
+                files['pt'] = os.path.join(work, 'a.pt')
+            except ImportError:
+                pass
+            try:
+                import h5py
+                with h5py.File(os.path.join(work, 'a.hdf5'), 'w') as h:
+                    g = h.create_group('grp')
+                    g.create_dataset('second', data=stored[::-1].copy())
+                    h.create_dataset('first', data=stored)
+                files['hdf5'] = os.path.join(work, 'a.hdf5')
+            except ImportError:
+                pass
+            for fmt, pth in files.items():
+                for how in ('inferred', 'forced', 'stream'):
+                    try:
+                        if how == 'inferred':
+                            got = util.read_signal(pth)
+                        elif how == 'forced':
+                            got = util.read_signal(pth, force_as=fmt)
+                        else:
+                            with open(pth, 'rb') as f:
+                                got = util.read_signal(f, force_as=fmt)
+                    except Exception as e:
+                        return {'reproduced': True, 'detail': 'read_signal of a .%s file (%s) raised %s: %s' % (fmt, how, type(e).__name__, str(e)[:80])}
+                    if fmt == 'hdf5' and not (np.array_equal(got, stored) or np.array_equal(got, stored[::-1])):
+                        return {'reproduced': True, 'detail': 'hdf5 file read (%s) returns neither data set' % how}
+                    if fmt != 'hdf5' and (got.shape != stored.shape or not np.array_equal(got, stored)):
+                        return {'reproduced': True, 'detail': '.%s file read (%s) returns %s %s, stored %s %s' % (fmt, how, got.dtype, got.shape, stored.dtype, stored.shape)}
+                if fmt == 'hdf5':
+                    for key, want in (('first', stored), ('grp/second', stored[::-1])):
+                        got = util.read_signal(pth, key=key)
+                        if not np.array_equal(got, want):
+                            return {'reproduced': True, 'detail': 'hdf5 key %r returns other data' % key}
+                with open(pth, 'rb') as f:
+                    for fa in (None, 'bogus'):
+                        try:
+                            util.read_signal(f, force_as=fa)
+                            return {'reproduced': True, 'detail': 'read_signal(stream, force_as=%r) accepted' % fa}
+                        except ValueError:
+                            pass
+                        except Exception as e:
+                            return {'reproduced': True, 'detail': 'read_signal(stream, force_as=%r) raised %s, not ValueError' % (fa, type(e).__name__)}
+            return {'reproduced': False, 'detail': 'every container dispatches to its reader (path inferred, forced, stream), invalid requests raise ValueError'}
         if k == 'wds':
             for key, data in (('a.npy', b'garbage'), ('a.wav', b''), ('a.unknown', b'123'), ('a.sph', b'NIST_1A\n   1024\n' + b'x' * 2000), ('a.npz', b'PK\x03\x04xx')):
                 try:
